@@ -1211,3 +1211,13 @@ pub fn no_dangling_abstract_content() {
         harness_bug("real code inspected the content of an abstract byte string");
     }
 }
+
+/// harness side: is `v` (of whatever type an entry point returns) this very host value?  Lets a
+/// harness stay compilable when a change alters an entry point's return type: a different type is
+/// simply "not that value".
+pub fn same_val<T: 'static>(v: &T, w: &crate::Val) -> bool {
+    match (v as &dyn core::any::Any).downcast_ref::<crate::Val>() {
+        Some(x) => x == w,
+        None => false,
+    }
+}
